@@ -49,6 +49,8 @@ def run(ck):
         if i % 10 == 7:
             # tiny leaves (fewer than five samples: 20% of the leaf rounds down to none) that do receive routed validation points, fewer than the refill size
             L = [3, 4][(i // 10) % 2]; n = int(rng.integers(10, 36)); nv = 40; refill = int(rng.choice([15, 40, 1500]))
+        if i % 10 in (2, 5, 8):
+            L = 14; n = int(rng.choice([160, 176, 192, 208, 224])); refill = int(rng.choice([3, 5])); nv = int(rng.choice([0, 3]))          # sixteen leaves of 10-14 samples: 20% = 2
         f = 0.0 if i % 6 else 0.1
         method = ['top_vector_agop_on_subset', 'random_pca', 'linear', 'pca', 'rf_criterion', 'random', 'random_agop_on_subset', 'random_global_agop',
                   'fixed_vector'][i % 9]
@@ -66,8 +68,14 @@ def run(ck):
             fv = np.zeros(d, dtype=np.float32); fv[1 + (i // 9) % (d - 1)] = 1.0      # a coordinate with ~33 distinct values
             kwm['fixed_vector'] = torch.tensor(fv)
         y = xr.make_y(task, X, rng)
+        many_classes = (i % 10 in (2, 5, 8))
+        if many_classes:
+            # four to six classes with skewed frequencies and leaves of 8-14 samples: whatever rule picks the rows that are moved, their NUMBER is bounded as stated
+            task = 'class'; Kc = [4, 4, 5][(i // 10) % 3]; pc = np.array([3.0, 3.0, 3.0] + [1.0] * (Kc - 3)); y = rng.choice(Kc, size=n, p=pc / pc.sum()).astype(np.int64); y[:Kc] = np.arange(Kc)
         Xv = xr.make_X('distinct_grid' if tied else 'random', max(nv, 0), d, rng) + 100.0 * (nv == 0)   # grid: validation rows tie with thresholds
         yv = xr.make_y(task, Xv, rng) if nv > 0 else y[:0]
+        if many_classes and nv > 0:
+            yv = rng.integers(0, Kc, size=nv).astype(np.int64)
         if nv == 0:
             Xv = Xv[:0]
         desc = dict(i=i, task=task, n=n, L=L, d=d, refill=refill, nval=nv, f=f, method=method, tree_iters=tree_iters, tied_projections=tied, agop_budget=(7 if i % 5 == 2 else None), n_trees=(3 if (i % 4 == 1 and not tree_iters) else 1), seed=ck.seed)
